@@ -4,6 +4,7 @@ package main
 // contracts on /repo's current working tree, write evidence, report violations.
 
 import (
+	"crypto/sha256"
 	"encoding/json"
 	"flag"
 	"fmt"
@@ -235,6 +236,22 @@ func cmdCheck(args []string) {
 		}
 	}
 
+	// ---- lemmas proved in Lean and used as axioms: each file must have a valid check record
+	var leanUsed []string
+	for ref := range v.leanRefs {
+		leanUsed = append(leanUsed, ref)
+		file := strings.Split(strings.TrimPrefix(ref, "lean:"), ":")[0]
+		if err := leanRecordOK(*vdir, file); err != nil {
+			nViol++
+			path := filepath.Join(repDir, sanitize("lean."+file)+".json")
+			os.WriteFile(path, []byte(fmt.Sprintf("{\"lemma_file\": %q, \"problem\": %q}", file, err.Error())), 0o644)
+			fmt.Printf("VIOLATION property=%s replay=%s obligation=lean:%s (%v) no-failing-input-found\n", *prop, path, file, err)
+		}
+	}
+	sort.Strings(leanUsed)
+	for a := range v.assumed {
+		spec.Assumptions = append(spec.Assumptions, "assume clause: "+a)
+	}
 	// ---- evidence
 	assumptions := append([]string{}, spec.Assumptions...)
 	assumptions = append(assumptions,
@@ -277,6 +294,7 @@ func cmdCheck(args []string) {
 		"not_covered":              spec.NotCovered,
 		"bounded":                  spec.Bounded,
 		"known_findings_seen":      knownSeen,
+		"lean_lemmas_used_as_axioms": leanUsed,
 		"notes":                    notes,
 		"explanation":              spec.Title,
 	}
@@ -326,4 +344,22 @@ func round2(f float64) float64 { return float64(int(f*100+0.5)) / 100 }
 func fatal(f string, a ...interface{}) {
 	fmt.Fprintf(os.Stderr, "govc: "+f+"\n", a...)
 	os.Exit(2)
+}
+
+// leanRecordOK: /verif/lemmas/<file>.checked must hold the sha256 of the lemma file, written by
+// setup.sh after `lean` accepted it (Lean 4 + Mathlib; the kernel re-checks every proof).
+func leanRecordOK(vdir, file string) error {
+	src, err := os.ReadFile(filepath.Join(vdir, file))
+	if err != nil {
+		return fmt.Errorf("lemma file missing: %v", err)
+	}
+	rec, err := os.ReadFile(filepath.Join(vdir, file+".checked"))
+	if err != nil {
+		return fmt.Errorf("no check record for %s (setup.sh runs lean on it)", file)
+	}
+	sum := fmt.Sprintf("%x", sha256.Sum256(src))
+	if strings.TrimSpace(string(rec)) != sum {
+		return fmt.Errorf("check record of %s is stale (file changed since lean accepted it)", file)
+	}
+	return nil
 }
